@@ -54,6 +54,37 @@ func (f *frame) active(fn *ssa.Function) bool {
 	return false
 }
 
+// paramCallees resolves a call through a function-typed parameter of the
+// function being inlined to the function(s) the caller passed (entry(func(){…})).
+func (f *frame) paramCallees(v ssa.Value, depth int) []*ssa.Function {
+	if depth > 4 || f == nil {
+		return nil
+	}
+	switch t := v.(type) {
+	case *ssa.Function:
+		return []*ssa.Function{t}
+	case *ssa.MakeClosure:
+		if g, ok := t.Fn.(*ssa.Function); ok {
+			return []*ssa.Function{g}
+		}
+	case *ssa.ChangeType:
+		return f.paramCallees(t.X, depth+1)
+	case *ssa.Parameter:
+		if f.call == nil || t.Parent() != f.fn {
+			return nil
+		}
+		a := callArg(f.call, paramIndex(t))
+		if a == nil {
+			return nil
+		}
+		if _, isP := a.(*ssa.Parameter); isP {
+			return f.parent.paramCallees(a, depth+1)
+		}
+		return f.paramCallees(a, depth+1)
+	}
+	return nil
+}
+
 type flow struct {
 	inScope map[*ssa.Function]bool
 	// instr is the transfer function of one instruction (calls that are inlined
@@ -95,6 +126,9 @@ func (fl *flow) run(fr *frame, entry bits) bits {
 				if _, isGo := ins.(*ssa.Go); !isGo {
 					if _, isDefer := ins.(*ssa.Defer); !isDefer {
 						targets := calleeFns(c)
+						if len(targets) == 0 {
+							targets = fr.paramCallees(c.Common().Value, 0)
+						}
 						var inl []*ssa.Function
 						for _, g := range targets {
 							if fl.inScope[g] && g.Blocks != nil {
